@@ -116,6 +116,28 @@ def run(pid, tier, seed):
                     fo.write(ln)
             scripts.append({"id": "stress-0", "stress": "growth", "seed": seed})
         verdict = pool.validate_trace(scratch, tr, "tv")
+        text_stats = None
+        if pid == "C17":
+            # configuration text: TLC-enumerated configuration records rendered as JSON, parsed by the real ParseConfig,
+            # re-evaluated by TLC (specs/Config.tla, ConfigTrace.tla); GCPMultiEndpoint copy semantics
+            import check_func
+            tv, tn, ttr, tgen = check_func.run_c17_text(scratch, binp, tier, seed)
+            text_stats = {"vectors": tn, "clause_hits": tv["cnt"]}
+            tlines = {}
+            for x in open(ttr):
+                try:
+                    tlines[json.loads(x).get("id")] = x
+                except ValueError:
+                    pass
+            for b in tv["bad"]:
+                sid = "cfgvec-%s" % b["i"]
+                scripts.append({"id": sid, "config_vector": json.loads(tlines.get(b["i"], "{}"))})
+                verdict["bad"].append(dict(b, sid=sid, i=0))
+                with open(tr, "a") as fo:
+                    fo.write(json.dumps({"sid": sid, "op": "cfgvec", "vector": json.loads(tlines.get(b["i"], "{}"))}) + "\n")
+            for c, n in tv["cnt"].items():
+                verdict["cnt"][c] = verdict["cnt"].get(c, 0) + n
+            verdict["n"] += tv["n"]
         # --- violations of this property's clauses
         mine = []
         for b in verdict["bad"]:
@@ -178,6 +200,7 @@ def run(pid, tier, seed):
             "violations_all_clauses": len(verdict["bad"]),
             "model_problems": [{"family": p["family"], "mode": p["mode"], "violated": p["violated"]} for p in problems],
             "known_findings_matched": known_hits,
+            "config_text": text_stats,
             "explanation": "TLC checks mechanism => clauses on specs/Pool.tla for every history up to max_events events per family "
                            "(states/transitions) and simulates deeper; every generated history is executed against the real balancer/picker "
                            "and TLC evaluates the clauses of specs/PoolGhost.tla on every recorded event (specs/PoolTrace.tla).",
